@@ -218,7 +218,7 @@ def _starts_with_lits(body):
 
 
 def tab7(ctx):
-    r = RuleResult("TAB-7", "writers and readers of .rsca / .alias / .wsca agree on sigils; one JSON schema type in every direction", floor=13)
+    r = RuleResult("TAB-7", "writers and readers of .rsca / .alias / .wsca agree on sigils; one JSON schema type in every direction", floor=14)
     bn = ctx.bin
     # --- rsca
     w = ctx.fn(bn, "asca_bin::cli::util::to_rsca_format")
@@ -320,6 +320,20 @@ def tab7(ctx):
     if not ok:
         r.report("TAB-7|alias|reader-state", fn_loc(rd), rd.path,
                  "parse_alias state machine: section flags %s, pushes %s; lines after @into must land in `into`, after @from in `from`" % (st, push_under))
+    # blank lines: the reader files EVERY non-comment line that follows a section tag, so a blank separator written by
+    # to_alias comes back as an empty alias -- unless the reader skips empty lines
+    blanks = [n for n in _lits(w, ("str", "fmt")) if n["lit"].startswith("\n") or "\n\n" in n["lit"] or (n["lit"].endswith("\n") and not n["lit"].strip())]
+    skips = False
+    for n in hirq.walk(rd.hir["body"]):
+        if n["e"] == "if" and any(c["e"] == "mcall" and c["name"] == "is_empty" and (c.get("rty") or "").lstrip("&") == "str" for c in hirq.walk(n["cond"])) \
+                and any(c["e"] == "continue" for c in hirq.walk(n["then"])):
+            skips = True
+    ok = not blanks or skips
+    r.inst("alias: the writer emits no blank line (%d literal(s) would), or the reader skips blank lines (%s)" % (len(blanks), "it does" if skips else "it files them"),
+           fn_loc(w, blanks[0].get("ln") if blanks else None), "ok" if ok else "report")
+    if not ok:
+        r.report("TAB-7|alias|blank-line", fn_loc(w, blanks[0].get("ln")), w.path,
+                 "to_alias writes a blank line (%r) but parse_alias files every non-comment line after a section tag: the separator is read back as an empty alias at the end of `into`, so json -> alias -> json is not the identity" % blanks[0]["lit"])
     # --- wsca comments
     pw = ctx.fn(bn, "asca_bin::cli::parse::parse_wsca")
     sp = [hirq.strip(n["args"][0]).get("lit") for n in hirq.walk(pw.hir["body"]) if n["e"] == "mcall" and n["name"] == "split" and n["args"]]
